@@ -134,9 +134,24 @@ func init() {
 			// terminator / a state change). No arm at all means the rune silently disappears there.
 			hasArm := map[string]bool{}
 			for _, st := range sw.Body.List {
-				for _, e := range st.(*ast.CaseClause).List {
+				cc := st.(*ast.CaseClause)
+				for _, e := range cc.List {
 					if name, ok := ctxConst(e); ok {
 						hasArm[name] = true
+					}
+				}
+				if cc.List == nil {
+					// a default arm that tests the context itself (`default: if context != fpcDefaultRead
+					// { return error }; context++`) is an arm for the contexts it names
+					for _, b := range cc.Body {
+						ast.Inspect(b, func(x ast.Node) bool {
+							if e, ok := x.(ast.Expr); ok {
+								if name, ok := ctxConst(e); ok {
+									hasArm[name] = true
+								}
+							}
+							return true
+						})
 					}
 				}
 			}
